@@ -364,3 +364,25 @@ package web
 //@     ghost tokG := $result
 //@   at call encodeSince#1 before
 //@     assert [C02:reverse-token-is-the-iterators-next-offset] $arg0 == tokG
+
+// ---------------------------------------------------------------------------
+// C01 / C04: the batching callback of POST /datasets/:dataset/entities: every parsed entity is either queued for the
+// next store call or was part of the batch this very call stored; the counter equals the number of queued entities, so
+// the trailing flush of the handler stores whatever is left
+//@ unit (*datasetHandler).processEntities$1
+//@   prop C01 C04
+//@   ghost flushedG bool = false
+//@   ghost inFlushedG bool = false
+//@   ghost n0G int = len(entities)
+//@   requires e != nil && dataset != nil && dataset.store != nil && !has($held, addrOf(dataset.WriteLock)) && (dataset.fullSyncStarted ==> dataset.fullSyncSeen != nil)
+//@   requires [callers-hold-no-lock] forall l int :: has($held, l) ==> lockLevel(l) < 1
+//@   requires [counter-equals-queue-length] count == len(entities) && 0 <= count && count < batchSize
+//@   requires forall i int :: 0 <= i && i < len(entities) ==> entities[i] != nil
+//@   ensures [C01,C04:a-parsed-entity-is-queued-for-the-next-store-call] result == nil && !flushedG ==> len(entities) == old(len(entities)) + 1 && entities[len(entities) - 1] == e
+//@   ensures [C01,C04:or-it-was-part-of-the-batch-stored-by-this-call] result == nil && flushedG ==> inFlushedG
+//@   ensures [C01,C04:a-stored-batch-is-not-kept] result == nil && flushedG ==> len(entities) == 0
+//@   ensures [C01,C04:counter-equals-queue-length] result == nil ==> count == len(entities) && count < batchSize
+//@   at call StoreEntities#1 before
+//@     ghost inFlushedG := len($arg1) > 0 && $arg1[len($arg1) - 1] == e && len($arg1) == n0G + 1
+//@   at call StoreEntities#1
+//@     ghost flushedG := true
